@@ -31,7 +31,8 @@ use zcash_client_backend::{
         error::Error as WalletError,
         wallet::{
             input_selection::{GreedyInputSelector, LockedInputPolicy, NonEmptyBTreeSet, SpendPolicy},
-            propose_send_max_transfer, propose_standard_transfer_to_address, propose_transfer, unlock_proposal_inputs, ConfirmationsPolicy, LockRequest,
+            create_proposed_transactions, propose_send_max_transfer, propose_standard_transfer_to_address, propose_transfer, unlock_proposal_inputs, ConfirmationsPolicy, LockRequest,
+            SpendingKeys,
         },
         MaxSpendMode, OutputLockStore, WalletCommitmentTrees,
     },
@@ -40,7 +41,7 @@ use zcash_client_backend::{
         DustOutputPolicy, SplitPolicy, StandardFeeRule,
     },
     proposal::{Proposal, ProposalError, StepOutputIndex},
-    wallet::{LockOwner, OutputRef},
+    wallet::{LockOwner, OutputRef, OvkPolicy},
 };
 use zcash_client_sqlite::ReceivedNoteId;
 use zcash_keys::{
@@ -108,6 +109,11 @@ enum Kind {
     Transfer { pays: Vec<Pay>, change: ChangeSel, fallback_orchard: bool },
     Standard { pay: Pay, fallback_orchard: bool },
     SendMax { addr: AddrKind, rk: u8, everything: bool },
+    /// `propose_transfer` of one canonical ZIP 318 denomination to an Orchard receiver (pool crossing after NU6.3)
+    Crossing { rk: u8, orchard_only_ua: bool, idx: u8 },
+    /// `propose_transfer` restricted to the Sapling pool, paying a Sapling or transparent recipient: the shape whose
+    /// transaction `Execute` can build with the mock Sapling provers
+    SaplingOnly { pay: Pay, multi: bool },
 }
 
 #[derive(Clone, Copy, Debug)]
@@ -142,6 +148,9 @@ enum XOp {
     /// `unlock_proposal_inputs` of an earlier successful proposal under the given owner
     Unlock { sel: u32, owner: u8 },
     ClearLocks { account: u8 },
+    /// build (mock provers) and STORE the transaction of an earlier, Sapling-only, single-step proposal:
+    /// `create_proposed_transactions` -> `store_transactions_to_be_sent`; the transaction is never mined
+    Execute { sel: u32 },
 }
 
 #[derive(Clone, Debug)]
@@ -197,6 +206,9 @@ fn arb_kind() -> impl Strategy<Value = Kind> {
             .prop_map(|(pays, change, fallback_orchard)| Kind::Transfer { pays, change, fallback_orchard }),
         2 => (arb_pay(), any::<bool>()).prop_map(|(pay, fallback_orchard)| Kind::Standard { pay, fallback_orchard }),
         3 => (arb_addr_kind(), 0u8..2, any::<bool>()).prop_map(|(addr, rk, everything)| Kind::SendMax { addr, rk, everything }),
+        2 => (0u8..2, any::<bool>(), 0u8..3).prop_map(|(rk, orchard_only_ua, idx)| Kind::Crossing { rk, orchard_only_ua, idx }),
+        3 => (0u8..2, prop_oneof![Just(AddrKind::Sapling), Just(AddrKind::P2pkh), Just(AddrKind::UaSapling)], arb_amount(), any::<bool>())
+            .prop_map(|(rk, addr, amount, multi)| Kind::SaplingOnly { pay: Pay { addr, rk, amount }, multi }),
     ]
 }
 
@@ -211,7 +223,7 @@ fn arb_propose() -> impl Strategy<Value = ProposeSpec> {
             2 => (1u8..8).prop_map(LockPol::PreferUnlocked),
             2 => (1u8..8).prop_map(LockPol::PreferLocked),
         ],
-        prop_oneof![4 => Just(7u8), 1 => 1u8..8],
+        prop_oneof![6 => Just(7u8), 2 => Just(1u8), 2 => 1u8..8],
         prop::option::weighted(0.6, (0u8..N_OWNERS, 0u8..11)),
     )
         .prop_map(|(kind, account, trusted, untrusted_extra, lock_pol, pools_mask, lock)| ProposeSpec { kind, account, trusted, untrusted_extra, lock_pol, pools_mask, lock })
@@ -220,12 +232,13 @@ fn arb_propose() -> impl Strategy<Value = ProposeSpec> {
 fn arb_xop(na: u8, nf: u8, iw: bool) -> impl Strategy<Value = XOp> {
     prop_oneof![
         11 => arb_propose().prop_map(XOp::Propose),
-        3 => (1u8..=12).prop_map(|n| XOp::Advance { n }),
+        3 => prop_oneof![6 => 1u8..=12, 1 => 30u8..=45].prop_map(|n| XOp::Advance { n }),
         2 => arb_block(na, nf, iw, 2, 3).prop_map(XOp::Receive),
         1 => (0u8..6, any::<bool>()).prop_map(|(depth, reorg)| XOp::Base(Op::Truncate { depth, reorg })),
         1 => (any::<u32>(), any::<bool>(), 1u16..12).prop_map(|(which, from_end, chunk)| XOp::Base(Op::ScanGap { which, from_end, chunk })),
         2 => (any::<u32>(), 0u8..N_OWNERS).prop_map(|(sel, owner)| XOp::Unlock { sel, owner }),
         1 => (0u8..3).prop_map(|account| XOp::ClearLocks { account }),
+        4 => any::<u32>().prop_map(|sel| XOp::Execute { sel }),
     ]
 }
 
@@ -270,6 +283,8 @@ fn wallet_pool(p: Pool) -> ShieldedPool {
 struct Stored {
     proposal: Prop,
     keys: Vec<NoteKey>,
+    account: u8,
+    executed: bool,
 }
 
 #[derive(Default)]
@@ -280,6 +295,9 @@ struct Stats {
     multi_step: u64,
     canonical_anchor: u64,
     anchor_deeper: u64,
+    crossing_attempts: u64,
+    probes: u64,
+    self_contradictions: u64,
     selected_notes: u64,
     witnesses_checked: u64,
     err_insufficient: u64,
@@ -293,6 +311,13 @@ struct Stats {
     spent_candidate: u64,
     orphan_candidate: u64,
     pending_spent_candidate: u64,
+    wallet_pending_candidate: u64,
+    selected_after_pending_expiry: u64,
+    executes: u64,
+    executed_ok: u64,
+    execute_errors: BTreeSet<String>,
+    execute_err: u64,
+    execute_ineligible: u64,
     gaps_at_attempt: u64,
     nontrivial_attempts: u64,
     override_selected_locked: u64,
@@ -313,6 +338,8 @@ struct Model {
     indexed: usize,
     /// note key -> (owner index, expiry height)
     locks: BTreeMap<NoteKey, (u8, u32)>,
+    /// note key -> expiry heights of the stored, never-mined transactions that spend it
+    pending: BTreeMap<NoteKey, Vec<u32>>,
     stored: Vec<Stored>,
     recipients: Vec<KeySet>,
 }
@@ -323,7 +350,7 @@ impl Model {
         seed[3] ^= 0x77;
         seed[17] ^= 0x11;
         let recipients = (0..2u32).map(|i| KeySet::derive(&world.net, &seed, i)).collect();
-        Model { index: BTreeMap::new(), indexed: 0, locks: BTreeMap::new(), stored: vec![], recipients }
+        Model { index: BTreeMap::new(), indexed: 0, locks: BTreeMap::new(), pending: BTreeMap::new(), stored: vec![], recipients }
     }
 
     fn refresh(&mut self, chain: &Chain) {
@@ -362,6 +389,9 @@ struct NoteState {
     /// active lock (owner, expiry) at the target height
     lock: Option<(u8, u32)>,
     pool_ok: bool,
+    /// spent by a stored (pending) wallet transaction that is unexpired at the target height
+    pending: bool,
+    ever_pending: bool,
 }
 
 fn tx_spends_wallet_note(chain: &Chain, n: &NoteRec) -> bool {
@@ -400,6 +430,8 @@ fn note_state(h: &Hist, m: &Model, nid: usize, target: u32, pol: &Pol) -> NoteSt
         conf_max: deep(pol.untrusted),
         lock: m.locks.get(&key).copied().filter(|(_, exp)| *exp >= target),
         pool_ok: pol.pools_mask & (1 << (n.pool as u8)) != 0,
+        pending: m.pending.get(&key).map_or(false, |v| v.iter().any(|exp| *exp == 0 || *exp >= target)),
+        ever_pending: m.pending.contains_key(&key),
     }
 }
 
@@ -587,8 +619,6 @@ struct Resolved {
     /// (address, amount) of every requested payment (empty for send-max)
     pays: Vec<(Address, u64)>,
     pol: Pol,
-    /// model total the amounts were derived from
-    basis: u64,
 }
 
 fn locked_input_policy(lp: LockPol) -> LockedInputPolicy {
@@ -614,6 +644,44 @@ fn shielded_pools(mask: u8) -> Vec<ShieldedPool> {
     Pool::ALL.iter().filter(|p| mask & (1 << (**p as u8)) != 0).map(|p| wallet_pool(*p)).collect()
 }
 
+/// `propose_transfer` with the greedy selector and the given change strategy; `None` = the payments do not form a valid request.
+#[allow(clippy::too_many_arguments)]
+fn run_transfer(
+    db: &mut Db,
+    net: &zcash_protocol::local_consensus::LocalNetwork,
+    acct_id: zcash_client_sqlite::AccountUuid,
+    pays: &[(Address, u64)],
+    change: ChangeSel,
+    fallback: ShieldedPool,
+    policy: ConfirmationsPolicy,
+    sp: &SpendPolicy,
+    lock_req: Option<LockRequest>,
+) -> Option<Result<Result<Prop, PErr>, String>> {
+    let payments: Vec<Payment> = pays.iter().map(|(a, v)| Payment::without_memo(a.to_zcash_address(net), Zatoshis::from_u64(*v).unwrap())).collect();
+    let request = TransactionRequest::new(payments).ok()?;
+    let selector = GreedyInputSelector::<Db>::new();
+    Some(match change {
+        ChangeSel::Single => {
+            let cs = SingleOutputChangeStrategy::<Db>::new(StandardFeeRule::Zip317, None, fallback, DustOutputPolicy::default());
+            vcore::catch(|| propose_transfer::<_, _, _, _, Infallible>(db, net, acct_id, &selector, &cs, request, policy, sp, lock_req, None).map_err(classify))
+        }
+        ChangeSel::Multi { count, min } => {
+            let cs = MultiOutputChangeStrategy::<Db>::new(
+                StandardFeeRule::Zip317,
+                None,
+                fallback,
+                DustOutputPolicy::default(),
+                SplitPolicy::with_min_output_value(NonZeroUsize::new(count.max(1) as usize).unwrap(), Zatoshis::from_u64(min).unwrap()),
+            );
+            vcore::catch(|| propose_transfer::<_, _, _, _, Infallible>(db, net, acct_id, &selector, &cs, request, policy, sp, lock_req, None).map_err(classify))
+        }
+    })
+}
+
+/// Signature of the known finding: input selection reports InsufficientFunds although the same wallet, asked for more
+/// under the same policies, reports enough available value.
+const SIG_SELF_CONTRADICTION: &str = "insufficient-funds-contradicts-own-available";
+
 #[allow(clippy::too_many_arguments)]
 fn do_propose(ctx: &Ctx, h: &mut Hist, m: &mut Model, st: &mut Stats, spec: &ProposeSpec, step: &str) -> Result<(), Fail> {
     m.refresh(&h.chain);
@@ -628,7 +696,8 @@ fn do_propose(ctx: &Ctx, h: &mut Hist, m: &mut Model, st: &mut Stats, spec: &Pro
 
     // The API of each kind fixes some of the policy.
     let (lock_pol, pools_mask) = match &spec.kind {
-        Kind::Transfer { .. } => (spec.lock_pol, spec.pools_mask & 7),
+        Kind::Transfer { .. } | Kind::Crossing { .. } => (spec.lock_pol, spec.pools_mask & 7),
+        Kind::SaplingOnly { .. } => (spec.lock_pol, 1),
         Kind::Standard { .. } => (LockPol::Exclude, 7),
         Kind::SendMax { .. } => (spec.lock_pol, spec.pools_mask & 7),
     };
@@ -642,7 +711,7 @@ fn do_propose(ctx: &Ctx, h: &mut Hist, m: &mut Model, st: &mut Stats, spec: &Pro
                 let v: u64 = account_notes(h, a)
                     .iter()
                     .map(|n| (h.chain.notes[*n].value, note_state(h, m, *n, target, &pol)))
-                    .filter(|(v, s)| s.known && s.mined && !s.spent_mined && !s.spent_pending && s.conf_doc && s.pool_ok && *v > MARGINAL_FEE && s.lock.map_or(true, |(o, _)| pol.admits & (1 << o) != 0))
+                    .filter(|(v, s)| s.known && s.mined && !s.spent_mined && !s.spent_pending && !s.pending && s.conf_doc && s.pool_ok && *v > MARGINAL_FEE && s.lock.map_or(true, |(o, _)| pol.admits & (1 << o) != 0))
                     .map(|(v, _)| v)
                     .fold(0u64, |a, b| a.saturating_add(b));
                 (v, a)
@@ -657,13 +726,13 @@ fn do_propose(ctx: &Ctx, h: &mut Hist, m: &mut Model, st: &mut Stats, spec: &Pro
     let notes = account_notes(h, account);
     let states: Vec<(usize, NoteState)> = notes.iter().map(|n| (*n, note_state(h, m, *n, target, &pol))).collect();
     let locked_out = |s: &NoteState| s.lock.map_or(false, |(o, _)| pol.admits & (1 << o) == 0);
-    let live = |s: &NoteState| s.known && s.mined && !s.spent_mined && !s.spent_pending;
+    let live = |s: &NoteState| s.known && s.mined && !s.spent_mined && !s.spent_pending && !s.pending;
     let mut basis = 0u64;
     let mut all_unspent_mined = 0u64;
     let mut conservative = 0u64;
     let mut documented = 0u64;
     let mut dust_candidates = 0u32;
-    let (mut n_live, mut n_underconf, mut n_locked_out, mut n_spent, mut n_orphan, mut n_pending) = (0, 0, 0, 0, 0, 0);
+    let (mut n_live, mut n_underconf, mut n_locked_out, mut n_spent, mut n_orphan, mut n_pending, mut n_wallet_pending) = (0, 0, 0, 0, 0, 0, 0);
     for (nid, s) in &states {
         let v = h.chain.notes[*nid].value;
         if s.known && s.mined && !s.spent_mined {
@@ -677,6 +746,9 @@ fn do_propose(ctx: &Ctx, h: &mut Hist, m: &mut Model, st: &mut Stats, spec: &Pro
         }
         if s.mined && !s.spent_mined && s.spent_pending {
             n_pending += 1;
+        }
+        if s.mined && !s.spent_mined && s.pending {
+            n_wallet_pending += 1;
         }
         if live(s) {
             n_live += 1;
@@ -693,7 +765,7 @@ fn do_propose(ctx: &Ctx, h: &mut Hist, m: &mut Model, st: &mut Stats, spec: &Pro
                 basis = basis.saturating_add(v);
                 documented = documented.saturating_add(v);
             }
-            if s.pool_ok && s.conf_max && s.lock.is_none() && !s.any_link && v > 2 * MARGINAL_FEE {
+            if s.pool_ok && s.conf_max && s.lock.is_none() && !s.any_link && !s.ever_pending && v > 2 * MARGINAL_FEE {
                 conservative = conservative.saturating_add(v);
             }
         }
@@ -705,8 +777,9 @@ fn do_propose(ctx: &Ctx, h: &mut Hist, m: &mut Model, st: &mut Stats, spec: &Pro
     st.spent_candidate += (n_spent > 0) as u64;
     st.orphan_candidate += (n_orphan > 0) as u64;
     st.pending_spent_candidate += (n_pending > 0) as u64;
+    st.wallet_pending_candidate += (n_wallet_pending > 0) as u64;
     st.gaps_at_attempt += gaps_exist as u64;
-    let ineligible_reasons = (n_underconf > 0) as u32 + (n_locked_out > 0) as u32 + (n_spent > 0) as u32 + (n_orphan > 0) as u32 + (n_pending > 0) as u32 + (gaps_exist && n_live > 0) as u32;
+    let ineligible_reasons = (n_underconf > 0) as u32 + (n_locked_out > 0) as u32 + (n_spent > 0) as u32 + (n_orphan > 0) as u32 + (n_pending > 0) as u32 + (n_wallet_pending > 0) as u32 + (gaps_exist && n_live > 0) as u32;
     if n_live >= 2 && ineligible_reasons >= 1 {
         st.nontrivial_attempts += 1;
     }
@@ -715,7 +788,7 @@ fn do_propose(ctx: &Ctx, h: &mut Hist, m: &mut Model, st: &mut Stats, spec: &Pro
     let net = h.world.net;
     let policy = ConfirmationsPolicy::new(NonZeroU32::new(trusted).unwrap(), NonZeroU32::new(untrusted).unwrap(), true).expect("trusted <= untrusted");
     let lock_req = spec.lock.map(|(o, fb)| LockRequest::new(owner_token(o % N_OWNERS), fb as u32));
-    let mut resolved = Resolved { pays: vec![], pol, basis };
+    let mut resolved = Resolved { pays: vec![], pol };
     let mk_pays = |pays: &[Pay], h: &Hist, m: &Model| -> Option<Vec<(Address, u64)>> {
         let mut remaining = basis;
         let mut out = vec![];
@@ -727,8 +800,9 @@ fn do_propose(ctx: &Ctx, h: &mut Hist, m: &mut Model, st: &mut Stats, spec: &Pro
         }
         Some(out)
     };
-    let selector = GreedyInputSelector::<Db>::new();
     let fb = |o: bool| if o { ShieldedPool::Orchard } else { ShieldedPool::Sapling };
+    // what to re-ask with a huge amount when the wallet reports InsufficientFunds
+    let mut probe: Option<(Vec<(Address, u64)>, ChangeSel, ShieldedPool, SpendPolicy)> = None;
 
     let result: Result<Result<Prop, PErr>, String> = match &spec.kind {
         Kind::Transfer { pays, change, fallback_orchard } => {
@@ -737,27 +811,52 @@ fn do_propose(ctx: &Ctx, h: &mut Hist, m: &mut Model, st: &mut Stats, spec: &Pro
                 return Ok(());
             };
             resolved.pays = ps.clone();
-            let payments: Vec<Payment> = ps.iter().map(|(a, v)| Payment::without_memo(a.to_zcash_address(&net), Zatoshis::from_u64(*v).unwrap())).collect();
-            let Ok(request) = TransactionRequest::new(payments) else {
+            let sp = SpendPolicy::shielded_pools(shielded_pools(pools_mask)).with_locked_input_policy(locked_input_policy(lock_pol));
+            probe = Some((ps.clone(), *change, fb(*fallback_orchard), sp.clone()));
+            match run_transfer(h.w.db(), &net, acct_id, &ps, *change, fb(*fallback_orchard), policy, &sp, lock_req) {
+                Some(r) => r,
+                None => {
+                    st.request_invalid += 1;
+                    return Ok(());
+                }
+            }
+        }
+        Kind::SaplingOnly { pay, multi } => {
+            let Some(ps) = mk_pays(std::slice::from_ref(pay), h, m) else {
                 st.request_invalid += 1;
                 return Ok(());
             };
+            resolved.pays = ps.clone();
+            let change = if *multi { ChangeSel::Multi { count: 3, min: 100_000 } } else { ChangeSel::Single };
             let sp = SpendPolicy::shielded_pools(shielded_pools(pools_mask)).with_locked_input_policy(locked_input_policy(lock_pol));
-            let db = h.w.db();
-            match change {
-                ChangeSel::Single => {
-                    let cs = SingleOutputChangeStrategy::<Db>::new(StandardFeeRule::Zip317, None, fb(*fallback_orchard), DustOutputPolicy::default());
-                    vcore::catch(|| propose_transfer::<_, _, _, _, Infallible>(db, &net, acct_id, &selector, &cs, request, policy, &sp, lock_req, None).map_err(classify))
+            probe = Some((ps.clone(), change, ShieldedPool::Sapling, sp.clone()));
+            match run_transfer(h.w.db(), &net, acct_id, &ps, change, ShieldedPool::Sapling, policy, &sp, lock_req) {
+                Some(r) => r,
+                None => {
+                    st.request_invalid += 1;
+                    return Ok(());
                 }
-                ChangeSel::Multi { count, min } => {
-                    let cs = MultiOutputChangeStrategy::<Db>::new(
-                        StandardFeeRule::Zip317,
-                        None,
-                        fb(*fallback_orchard),
-                        DustOutputPolicy::default(),
-                        SplitPolicy::with_min_output_value(NonZeroUsize::new((*count).max(1) as usize).unwrap(), Zatoshis::from_u64(*min).unwrap()),
-                    );
-                    vcore::catch(|| propose_transfer::<_, _, _, _, Infallible>(db, &net, acct_id, &selector, &cs, request, policy, &sp, lock_req, None).map_err(classify))
+            }
+        }
+        Kind::Crossing { rk, orchard_only_ua, idx } => {
+            // one payment of a canonical ZIP 318 denomination to an Orchard receiver, sized to fit the largest
+            // selectable Orchard note: the shape `propose_transfer` tries to build against a bucketed anchor
+            let biggest = states.iter().filter(|(n, s)| h.chain.notes[*n].pool == Pool::Orchard && live(s) && s.conf_doc && !locked_out(s)).map(|(n, _)| h.chain.notes[*n].value).max().unwrap_or(0);
+            let amt = resolve_amount(Amount::Canonical(*idx), biggest.saturating_sub(10_000));
+            let Some(addr) = build_address(h, m, if *orchard_only_ua { AddrKind::UaOrchard } else { AddrKind::UaFull }, *rk, account) else {
+                st.request_invalid += 1;
+                return Ok(());
+            };
+            let ps = vec![(addr, amt)];
+            resolved.pays = ps.clone();
+            st.crossing_attempts += 1;
+            let sp = SpendPolicy::shielded_pools(shielded_pools(pools_mask)).with_locked_input_policy(locked_input_policy(lock_pol));
+            probe = Some((ps.clone(), ChangeSel::Single, ShieldedPool::Orchard, sp.clone()));
+            match run_transfer(h.w.db(), &net, acct_id, &ps, ChangeSel::Single, ShieldedPool::Orchard, policy, &sp, lock_req) {
+                Some(r) => r,
+                None => {
+                    st.request_invalid += 1;
+                    return Ok(());
                 }
             }
         }
@@ -768,10 +867,7 @@ fn do_propose(ctx: &Ctx, h: &mut Hist, m: &mut Model, st: &mut Stats, spec: &Pro
             };
             resolved.pays = ps.clone();
             let (addr, amt) = ps[0].clone();
-            if matches!(addr, Address::Transparent(_) | Address::Tex(_)) && amt == 0 {
-                st.request_invalid += 1;
-                return Ok(());
-            }
+            probe = Some((ps.clone(), ChangeSel::Single, fb(*fallback_orchard), SpendPolicy::default()));
             let db = h.w.db();
             vcore::catch(|| {
                 propose_standard_transfer_to_address::<_, _, Infallible>(
@@ -834,7 +930,7 @@ fn do_propose(ctx: &Ctx, h: &mut Hist, m: &mut Model, st: &mut Stats, spec: &Pro
                     );
                 }
             }
-            m.stored.push(Stored { proposal, keys });
+            m.stored.push(Stored { proposal, keys, account, executed: false });
         }
         Err(PErr::Insufficient { available, required }) => {
             st.err_insufficient += 1;
@@ -847,6 +943,29 @@ fn do_propose(ctx: &Ctx, h: &mut Hist, m: &mut Model, st: &mut Stats, spec: &Pro
                         "{step}: InsufficientFunds {{ available: {available}, required: {required} }} but account {account} holds {conservative} zatoshi in notes that are mined, unspent (no spender ever seen), unlocked, above 10000 zatoshi, in a permitted pool and have at least the untrusted confirmations ({untrusted}) at target {target}; everything is scanned; spec {spec:?}; notes {:?}",
                         states.iter().map(|(n, s)| (h.chain.notes[*n].pool, h.chain.notes[*n].value, h.chain.notes[*n].height, h.chain.notes[*n].scope, *s)).collect::<Vec<_>>()
                     );
+                }
+            }
+            // Self-consistency: ask the same wallet, same account, same policies for MORE than it can hold. The
+            // `available` it reports then is everything it considers selectable; if that exceeds what the failed
+            // request required (plus the fee of spending every note the account has), the two answers contradict.
+            if let Some((ps, change, fallback, sp)) = &probe {
+                let mut big = ps.clone();
+                big[0].1 = MAX_MONEY / 4;
+                st.probes += 1;
+                if let Some(Ok(Err(PErr::Insufficient { available: avail2, required: req2 }))) = run_transfer(h.w.db(), &net, acct_id, &big, *change, *fallback, policy, sp, None) {
+                    let margin = MARGINAL_FEE * (n_live as u64 + 8) + 50_000;
+                    if avail2 >= required.saturating_add(margin) {
+                        st.self_contradictions += 1;
+                        if !ctx.known_hit(SIG_SELF_CONTRADICTION) {
+                            vfail!(
+                                SIG_SELF_CONTRADICTION,
+                                "{step}: account {account}, target {target}, policy trusted {trusted} / untrusted {untrusted}: a request for {:?} fails with InsufficientFunds {{ available: {available}, required: {required} }}, but the same request with the first amount raised to {} fails with InsufficientFunds {{ available: {avail2}, required: {req2} }}: the wallet itself reports {avail2} selectable; account notes (pool, value, height, scope, position, state): {:?}",
+                                ps.iter().map(|x| x.1).collect::<Vec<_>>(),
+                                MAX_MONEY / 4,
+                                states.iter().map(|(n, s)| (h.chain.notes[*n].pool, h.chain.notes[*n].value, h.chain.notes[*n].height, h.chain.notes[*n].scope, h.chain.notes[*n].position, *s)).collect::<Vec<_>>()
+                            );
+                        }
+                    }
                 }
             }
             if everything_scanned && documented >= required.saturating_add(50_000) {
@@ -879,9 +998,11 @@ fn do_propose(ctx: &Ctx, h: &mut Hist, m: &mut Model, st: &mut Stats, spec: &Pro
         Err(PErr::Other(variant, dbg)) => {
             st.err_other += 1;
             if st.other_errors.len() < 8 {
-                st.other_errors.insert(variant);
+                st.other_errors.insert(format!("{variant} {}", dbg.chars().take(80).collect::<String>()));
             }
-            let _ = dbg;
+            if std::env::var("VERIF_C08_DEBUG").is_ok() {
+                eprintln!("[c08-debug] other error: {} :: kind {:?}", dbg.chars().take(400).collect::<String>(), spec.kind);
+            }
         }
     }
     // a failed proposal must leave the lock state untouched, a successful one must have changed exactly the selected inputs
@@ -979,6 +1100,15 @@ fn check_proposal(
                     "{step}: selected note {desc} is spent by an un-mined transaction that is unexpired under the documented rule (first seen at height h, h + 40 >= target {target}); links {:?}",
                     links_of(h, nid)
                 );
+                if s0.ever_pending && !s0.pending {
+                    st.selected_after_pending_expiry += 1;
+                }
+                vensure!(
+                    !s0.pending,
+                    "selected-note-spent-by-pending-tx",
+                    "{step}: selected note {desc} is spent by a transaction the wallet stored with store_transactions_to_be_sent, unexpired at target {target} (expiry heights {:?})",
+                    m.pending.get(&key)
+                );
                 // (iii)
                 let stabilized = witness_stabilized(h, &key);
                 if !stabilized {
@@ -1074,7 +1204,7 @@ fn check_proposal(
                 "{step}: send-max selected {selected_total} but pays {external} with total fees {fees_total}"
             );
             if *everything {
-                let all_live: u64 = states.iter().filter(|(_, s)| s.known && s.mined && !s.spent_mined && !s.spent_pending && s.pool_ok).map(|(n, _)| h.chain.notes[*n].value).filter(|v| *v > MARGINAL_FEE).sum();
+                let all_live: u64 = states.iter().filter(|(_, s)| s.known && s.mined && !s.spent_mined && !s.spent_pending && !s.pending && s.pool_ok).map(|(n, _)| h.chain.notes[*n].value).filter(|v| *v > MARGINAL_FEE).sum();
                 if all_live != selected_total {
                     st.everything_partial += 1;
                 }
@@ -1111,6 +1241,66 @@ fn witness_stabilized(h: &Hist, key: &NoteKey) -> bool {
             |r| r.get::<_, bool>(0),
         )
         .unwrap_or(false)
+}
+
+fn executable(sp: &Stored) -> bool {
+    let p = &sp.proposal;
+    let s = p.steps().first();
+    !sp.executed
+        && p.steps().len() == 1
+        && !sp.keys.is_empty()
+        && sp.keys.iter().all(|key| key.0 == Pool::Sapling)
+        && s.payment_pools().values().all(|pt| matches!(pt, PoolType::Transparent | PoolType::Shielded(ShieldedPool::Sapling)))
+        && s.balance().proposed_change().iter().all(|c| c.output_pool() == PoolType::Shielded(ShieldedPool::Sapling))
+}
+
+/// Builds and stores the transaction of stored proposal `k` if it is single-step and Sapling/transparent-only
+/// (the mock Sapling provers make that cheap; an Orchard-family bundle would need a real proving key).
+fn do_execute(h: &mut Hist, m: &mut Model, st: &mut Stats, k: usize, step: &str) -> Result<(), Fail> {
+    use sapling::prover::mock::{MockOutputProver, MockSpendProver};
+    let account = m.stored[k].account;
+    let usk = h.world.accounts[account as usize].usk.clone();
+    let net = h.world.net;
+    let target = u32::from(m.stored[k].proposal.min_target_height());
+    let db = h.w.db();
+    let proposal = &m.stored[k].proposal;
+    let r = vcore::catch(|| {
+        create_proposed_transactions::<_, _, Infallible, _, Infallible, _>(db, &net, &MockSpendProver, &MockOutputProver, &SpendingKeys::from_unified_spending_key(usk), OvkPolicy::Sender, proposal, None)
+            .map_err(|e| format!("{e:?}"))
+    });
+    match r {
+        Err(p) => vfail!(format!("create-proposed-transactions-panic:{}", vcore::panic_site(&p)), "{step}: create_proposed_transactions panicked: {p}"),
+        Ok(Err(e)) => {
+            // a stale proposal (anchor checkpoint pruned, rewound chain, ...) may legitimately fail; nothing may change then
+            st.execute_err += 1;
+            if st.execute_errors.len() < 6 {
+                st.execute_errors.insert(e.chars().take(120).collect());
+            }
+            if std::env::var("VERIF_C08_DEBUG").is_ok() {
+                eprintln!("[c08-debug] execute failed: {}", e.chars().take(300).collect::<String>());
+            }
+        }
+        Ok(Ok(txids)) => {
+            st.executed_ok += 1;
+            m.stored[k].executed = true;
+            // expiry of the stored transaction: read back, and required to be a height the builder may have chosen
+            let txid = txids.first();
+            let expiry: Option<u32> = h
+                .w
+                .conn()
+                .query_row("SELECT expiry_height FROM transactions WHERE txid = ?1", rusqlite::params![&txid.as_ref()[..]], |r| r.get(0))
+                .map_err(|e| Fail::new("stored-tx-missing", format!("{step}: the stored transaction {txid:?} has no row: {e:?}")))?;
+            let Some(expiry) = expiry else { vfail!("stored-tx-without-expiry", "{step}: the stored transaction {txid:?} has a NULL expiry height") };
+            vensure!(expiry == 0 || (expiry >= target && expiry <= target + 1000), "stored-tx-expiry-out-of-range", "{step}: stored transaction expiry {expiry}, proposal target {target}");
+            for key in m.stored[k].keys.clone() {
+                m.pending.entry(key).or_default().push(expiry);
+                // documented: locks are cleared when the inputs are recorded as spent by store_transactions_to_be_sent
+                m.locks.remove(&key);
+            }
+        }
+    }
+    m.refresh(&h.chain);
+    compare_lock_tables(h, m, st, step)
 }
 
 // ---------------------------------------------------------------------------------------------
@@ -1224,6 +1414,20 @@ fn run_case(ctx: &Ctx, case: &C08Case) -> CaseResult {
                 m.refresh(&h.chain);
                 compare_lock_tables(&mut h, &m, &mut st, &step)?;
             }
+            XOp::Execute { sel } => {
+                if m.stored.is_empty() {
+                    continue;
+                }
+                // among the proposals that can be built with the mock Sapling provers, if any
+                let eligible: Vec<usize> = (0..m.stored.len()).filter(|k| executable(&m.stored[*k])).collect();
+                st.executes += 1;
+                if eligible.is_empty() {
+                    st.execute_ineligible += 1;
+                    continue;
+                }
+                let k = eligible[vcore::pick_index(*sel, eligible.len())];
+                do_execute(&mut h, &mut m, &mut st, k, &step)?;
+            }
             XOp::ClearLocks { account } => {
                 let a = (*account).min(h.world.accounts.len() as u8 - 1);
                 let id = h.w.accounts[a as usize];
@@ -1251,6 +1455,10 @@ fn run_case(ctx: &Ctx, case: &C08Case) -> CaseResult {
         .label_if(st.spent_candidate > 0, "spent-note-present")
         .label_if(st.orphan_candidate > 0, "orphaned-note-present")
         .label_if(st.pending_spent_candidate > 0, "note-spent-by-unexpired-orphan-tx")
+        .label_if(st.wallet_pending_candidate > 0, "note-spent-by-stored-pending-tx")
+        .label_if(st.executed_ok > 0, "pending-tx-stored")
+        .label_if(st.selected_after_pending_expiry > 0, "selected-note-whose-pending-spender-expired")
+        .label_if(st.execute_err > 0, "execute-failed")
         .label_if(st.gaps_at_attempt > 0, "attempt-with-unscanned-gaps")
         .label_if(st.override_selected_locked > 0, "override-policy-selected-locked-note")
         .label_if(st.err_insufficient > 0, "err-insufficient-funds")
@@ -1258,7 +1466,10 @@ fn run_case(ctx: &Ctx, case: &C08Case) -> CaseResult {
         .label_if(st.err_ineligible > 0, "err-everything-mode-ineligible")
         .label_if(st.err_scan_required > 0, "err-scan-required")
         .label_if(st.err_other > 0, "err-other")
+        .label_if(st.other_errors.iter().any(|e| e.contains("PaymentPoolsMismatch")), "err-payment-pools-mismatch(tex-payment-after-non-tex)")
         .label_if(st.insufficient_despite_documented > 0, "LIVENESS-insufficient-although-documented-spendable-covers")
+        .label_if(st.self_contradictions > 0, "known:insufficient-funds-contradicts-own-available")
+        .label_if(st.crossing_attempts > 0, "canonical-crossing-attempted")
         .label_if(st.strict_conf_latitude > 0, "selected-external-note-of-wallet-spending-tx-with-trusted-confs")
         .label_if(st.selected_dust > 0, "selected-dust-note")
         .label_if(st.everything_partial > 0, "send-max-everything-partial")
@@ -1285,14 +1496,90 @@ fn run_case(ctx: &Ctx, case: &C08Case) -> CaseResult {
         .count("unlock-removed-locks", st.unlock_removed)
         .count("clear-calls", st.clears)
         .count("lock-tables-compared", st.lock_tables_compared)
-        .count("override-selected-locked", st.override_selected_locked))
+        .count("override-selected-locked", st.override_selected_locked)
+        .count("execute-attempts", st.executes)
+        .count("execute-ineligible", st.execute_ineligible)
+        .count("pending-txs-stored", st.executed_ok)
+        .count("execute-errors", st.execute_err)
+        .count("attempts-with-pending-spent-note", st.wallet_pending_candidate)
+        .count("insufficient-funds-probes", st.probes)
+        .count("self-contradictions", st.self_contradictions)
+        .count("canonical-crossing-attempts", st.crossing_attempts)
+        .count("bucketed-policy-proposals", st.canonical_anchor))
+}
+
+/// Recorded minimal input of the known finding `insufficient-funds-contradicts-own-available`: one account; an
+/// EXTERNAL 1_000_000 note mined at height h, an INTERNAL (change-like) 2_000_000 note at h+1, three more blocks, all
+/// scanned; DEFAULT confirmations policy (trusted 3 / untrusted 10); pay 50_000 to a Sapling address.
+fn known_contradiction_case() -> C08Case {
+    let recv = |scope: ScopeSel, v: u64| BlockSpec { txs: vec![TxSpec { items: vec![ItemSpec::Recv { pool: Pool::Sapling, who: Who::Wallet(0), scope, value: v }] }] };
+    C08Case {
+        base: Case {
+            world: WorldSpec { seed: [9; 32], n_accounts: 1, n_foreign: 0, nu6_3_offset: None, retention_interval: None },
+            long: false,
+            ops: vec![Op::AddBlocks(vec![recv(ScopeSel::External, 1_000_000), recv(ScopeSel::Internal, 2_000_000)]), Op::AddEmpty(3)],
+            final_chunk: 10,
+        },
+        seed_blocks: vec![],
+        seed_advance: 0,
+        full_scan: Some(10),
+        xops: vec![XOp::Propose(ProposeSpec {
+            kind: Kind::Transfer { pays: vec![Pay { addr: AddrKind::Sapling, rk: 0, amount: Amount::Tiny(50_000) }], change: ChangeSel::Single, fallback_orchard: false },
+            account: 0,
+            trusted: 3,
+            untrusted_extra: 7,
+            lock_pol: LockPol::Exclude,
+            pools_mask: 7,
+            lock: None,
+        })],
+    }
 }
 
 fn main() {
     chainsim::init_sqlite();
     let ctx = Ctx::from_args("C08", "exploration");
-    ctx.set_rule("TODO");
+    ctx.set_rule(
+        "proptest cases: a chainsim wallet history (world with 1-3 accounts, optional Ironwood activation and retention interval; blocks with \
+         receipts/spends in 3 pools and all key scopes, scans in any order, tip updates, rewinds with/without reorg) + 0-3 busy blocks + 0-15 \
+         empty blocks, then (85 %) a full scan or (15 %) the gaps are left; then 5-13 C08 ops: Propose (propose_transfer with single/multi-output \
+         change strategy and 1-3 payments to Sapling / unified (full, Orchard-only, Sapling-only, Sapling+P2PKH) / P2PKH / P2SH / TEX / own-account \
+         addresses; propose_standard_transfer_to_address; propose_send_max_transfer in both MaxSpendMode values; a canonical ZIP 318 denomination to an \
+         Orchard receiver; a Sapling-pool-only transfer; amounts tiny / a percentage / total-k for fee-sized k / total+k / far above, relative to the value the model considers \
+         selectable; ConfirmationsPolicy trusted 1-10, untrusted = trusted+0..10; SpendPolicy pools subset; LockedInputPolicy Exclude / \
+         PreferUnlocked(owners) / PreferLocked(owners) over 3 owners; lock_inputs Some(owner, 0-10 blocks) in 60 %; the account is picked by rank \
+         of selectable value), Advance(1-12 or 30-45 empty blocks, scanned), Receive(a generated block, scanned), rewind / gap scan, unlock_proposal_inputs \
+         of an earlier proposal under any owner, clear_locked_outputs, Execute (create_proposed_transactions with the mock Sapling provers for an earlier \
+         single-step Sapling-only proposal: the transaction is STORED via store_transactions_to_be_sent and never mined, so its inputs are spent by a pending \
+         transaction until its expiry height). Every returned proposal is checked note by note against the model ledger and \
+         the model lock table; the wallet's get_locked_outputs is compared with the model lock table after every op. Non-trivial = history with a \
+         proposal attempt against an account holding >= 2 unspent mined notes while >= 1 note of the account is ineligible (spent, spent by an \
+         unexpired orphaned tx, spent by a stored pending tx, orphaned, under-confirmed, locked by a non-admitted owner) or the wallet has unscanned gaps; distinct = hash of the case.",
+    );
+    ctx.assume("model ledger = chainsim::Ledger (validated against the wallet's balances and note rows by C01); un-mined tx with unknown expiry counts as unexpired while first-observed height + 40 >= target (documented tx_unexpired_condition)");
+    ctx.assume("confirmations: a note needs mined_height + required <= target (= wallet chain tip + 1); required = trusted for internal-scope notes, untrusted otherwise (no transaction is ever marked trusted by the user). Latitude: an external-scope note of a transaction that also spends a wallet note is only required to have the trusted depth (counted separately)");
+    ctx.assume("locks: an output is locked while lock_expiry_height >= target height; lock_inputs sets expiry = target + for_blocks for every selected input; unlock is owner-scoped; clear is per account (data_api::locking module docs)");
+    ctx.assume("pending: a transaction stored by store_transactions_to_be_sent spends its inputs while its expiry height >= target height (expiry 0 = never expires); storing it releases the locks on its inputs (propose_transfer docs); the expiry is read back from the wallet's transactions table");
+    ctx.assume("liveness is NOT asserted from the model except on overwhelming evidence (all blocks scanned, no dust candidates, notes with untrusted depth, never locked, no spender ever seen cover `required` + 100000); the wallet's self-contradiction (InsufficientFunds, yet the same wallet asked for more reports `available` >= required + 5000*(notes+8) + 50000) is reported under a known-finding signature");
+    ctx.assume("a history stops (counted as excluded-known) as soon as a reorganising rewind cuts an annotated frontier subtree (known shardtree finding listed under C06)");
     let tier = ctx.tier;
+    // Regression: the recorded input of the known finding. While the defect exists the history reports the
+    // known signature (counted, KNOWN-FINDING printed); once it is gone the proposal simply succeeds.
+    ctx.run_enum(
+        "regression-known-insufficient-funds",
+        1,
+        false,
+        |_| {
+            let r = run_case(&ctx, &known_contradiction_case())?;
+            vensure!(
+                r.labels.contains(&"proposal-ok") || r.labels.contains(&"known:insufficient-funds-contradicts-own-available"),
+                "regression-input-no-longer-exercises-selection",
+                "the recorded history neither produced a proposal nor the known finding: labels {:?}",
+                r.labels
+            );
+            Ok(r)
+        },
+        |_| format!("{:?}", known_contradiction_case()),
+    );
     ctx.run_prop_with("proposals", || arb_c08_case(12, 6), tier.pick(360, 20_000), 60, |c| run_case(&ctx, c));
     ctx.require_label_fraction("proposals", "proposal-ok", 0.40);
     ctx.require_label_fraction("proposals", "locked-note-exclusion-situation", 0.10);
